@@ -1,5 +1,6 @@
 import Uom.Model.Dim
 import Uom.Gen.Table
+import Uom.Gen.Sigs
 /-!
 # C01 — operator results carry the dimension that dimensional analysis prescribes
 
@@ -150,5 +151,57 @@ theorem si_identities :
 
 /-- every quantity has one exponent per base quantity -/
 theorem all_dims_have_seven : (Gen.table.all fun q => q.dim.length == 7) = true := by decide +kernel
+
+/-! ### tie to the source: the operator signatures regenerated from /repo/src on this run
+
+`Gen.Sig.*` is what the translator read from the `impl` headers, `type Output` declarations, method
+return types and `where` clauses of src/system.rs just now; `Sig.outTy` evaluates the output type over
+the type-level model.  For **every** choice of operand types (`env`) the regenerated output type is the
+hand-written `outMul`, `outDiv`, … that the theorems above are about. -/
+section SourceTie
+open Uom.Body Uom.Sig Uom.Gen.Sig
+
+theorem src_mul_output (env : TyP → QTy) (e : Int) :
+    system_Mul_Quantity_for_Quantity_mul_auto.outTy env e = some (outMul (env .Dl) (env .Dr)) ∧
+    system_Mul_Quantity_for_Quantity_mul_noauto.outTy env e = some (outMul (env .Dl) (env .Dr)) := ⟨rfl, rfl⟩
+
+theorem src_div_output (env : TyP → QTy) (e : Int) :
+    system_Div_Quantity_for_Quantity_div_auto.outTy env e = some (outDiv (env .Dl) (env .Dr)) ∧
+    system_Div_Quantity_for_Quantity_div_noauto.outTy env e = some (outDiv (env .Dl) (env .Dr)) := ⟨rfl, rfl⟩
+
+theorem src_unary_outputs (env : TyP → QTy) (e : Int) :
+    system_inherent_Quantity_recip.outTy env e = some (outRecip (env .D)) ∧
+    system_inherent_Quantity_powi.outTy env e = some (outPowi (env .D) e) ∧
+    system_inherent_Quantity_sqrt.outTy env e = outRoot 2 (env .D) ∧
+    system_inherent_Quantity_cbrt.outTy env e = outRoot 3 (env .D) ∧
+    system_inherent_Quantity_mul_add_auto.outTy env e = some (outMulAdd (env .D) (env .Da)) ∧
+    system_inherent_Quantity_mul_add_noauto.outTy env e = some (outMulAdd (env .D) (env .Da)) :=
+  ⟨rfl, rfl, rfl, rfl, rfl, rfl⟩
+
+/-- scalar on the left keeps the kind (`…, D::Kind>`); scalar on the right and every additive / unary
+    form return the left operand's own type -/
+theorem src_scalar_and_preserving_outputs (env : TyP → QTy) (e : Int) :
+    system_Mul_Quantity_for_V_mul.outTy env e = some (outScalarLeftMul (env .D)) ∧
+    system_Div_Quantity_for_V_div.outTy env e = some (outScalarLeftDiv (env .D)) ∧
+    system_Mul_V_for_Quantity_mul.outTy env e = some (outPreserving (env .D)) ∧
+    system_Div_V_for_Quantity_div.outTy env e = some (outPreserving (env .D)) ∧
+    system_Add_Quantity_for_Quantity_add_auto.outTy env e = some (outPreserving (env .D)) ∧
+    system_Add_for_Quantity_add_noauto.outTy env e = some (outPreserving (env .D)) ∧
+    system_Sub_Quantity_for_Quantity_sub_auto.outTy env e = some (outPreserving (env .D)) ∧
+    system_Sub_for_Quantity_sub_noauto.outTy env e = some (outPreserving (env .D)) ∧
+    system_Rem_Quantity_for_Quantity_rem_auto.outTy env e = some (outPreserving (env .D)) ∧
+    system_Rem_for_Quantity_rem_noauto.outTy env e = some (outPreserving (env .D)) ∧
+    system_Neg_for_Quantity_neg.outTy env e = some (outPreserving (env .D)) ∧
+    system_inherent_Quantity_abs.outTy env e = some (outPreserving (env .D)) ∧
+    system_inherent_Quantity_signum.outTy env e = some (outPreserving (env .D)) ∧
+    system_inherent_Quantity_max.outTy env e = some (outPreserving (env .D)) ∧
+    system_inherent_Quantity_min.outTy env e = some (outPreserving (env .D)) ∧
+    system_inherent_Quantity_hypot_auto.outTy env e = some (outPreserving (env .D)) ∧
+    system_inherent_Quantity_hypot_noauto.outTy env e = some (outPreserving (env .D)) ∧
+    system_Saturating_for_Quantity_saturating_add.outTy env e = some (outPreserving (env .D)) ∧
+    system_Saturating_for_Quantity_saturating_sub.outTy env e = some (outPreserving (env .D)) :=
+  ⟨rfl, rfl, rfl, rfl, rfl, rfl, rfl, rfl, rfl, rfl, rfl, rfl, rfl, rfl, rfl, rfl, rfl, rfl, rfl⟩
+
+end SourceTie
 
 end Uom.C01
